@@ -265,11 +265,22 @@ def g_euclid(ctx, rng, i):
         ok = np.allclose(_cart(q), p + v, atol=1e-9)
         ctx.judge("translation", bool(ok), [v, p], what="translation(v) does not map p to p+v", op="translation*p", nontrivial=True)
     # ... and on collections of 5 ... 200 points at once (the action on a collection is the action on its elements)
+    # (collection shapes with axes of length 1 included: the image has the shape of the collection)
+    for cs in ((1,), (1, 4), (3, 1), (1, 1), (2, 3)):
+        ptsc = gen.coords(rng, cs + (dim,), 9, mode).astype(float)
+        try:
+            imgc = t * g.PointCollection(np.concatenate([ptsc, np.ones(cs + (1,))], axis=-1))
+            ok = type(imgc).__name__ == "PointCollection" and imgc.shape == cs + (dim + 1,) and np.allclose(np.asarray(imgc.normalized_array, dtype=complex)[..., :-1], ptsc + np.asarray(v, dtype=float), atol=1e-9)
+            why = f"{type(imgc).__name__} of shape {imgc.shape}"
+        except Exception as e:  # noqa: BLE001
+            ok, why = False, f"raised {type(e).__name__}: {str(e)[:80]}"
+        ctx.judge("translation", bool(ok), [v, list(cs)], what=f"translation(v) on a point collection of shape {cs}: the image ({why}) is not the collection of the points p+v", op="translation*collection",
+                  nontrivial=True, feat={"cshape": list(cs)})
     for kk in (5, 63, 64, 200)[i % 2::2]:
         pts = gen.coords(rng, (kk, dim), 9, mode).astype(float)
         img = t * g.PointCollection(np.c_[pts, np.ones(kk)])
         got = np.asarray(img.normalized_array, dtype=complex)[..., :-1]
-        ctx.judge("translation", bool(np.allclose(got, pts + np.asarray(v, dtype=float), atol=1e-9)), [v, kk], what=f"translation(v) does not map the {kk} points of a collection to p+v", op="translation*collection",
+        ctx.judge("translation", bool(img.shape == (kk, dim + 1) and np.allclose(got, pts + np.asarray(v, dtype=float), atol=1e-9)), [v, kk], what=f"translation(v) does not map the {kk} points of a collection to p+v", op="translation*collection",
                   nontrivial=True)
         a_ = float(rng.uniform(-3, 3))
         if dim == 2:
